@@ -3,13 +3,14 @@
    for a broadcast send the connection that was served) and what was observed: the log of every connection, the final
    parameter cache and the final subscription tables.  check_case re-runs the model along the same schedule and requires:
    every step is enabled in the model and parked at the same label (same parameter for make_update, same module for an
-   updateLock, a member of the pending listener set for a send), all threads have finished their scripts, and all
-   observations are equal. *)
+   updateLock, a member of the pending listener set for a send; set.add inside subscribe, set.discard inside
+   reset_connection), all threads have finished their scripts, and all observations are equal (also the event names
+   bound in the subscription table, with or without members). *)
 From Coq Require Import List Arith Bool.
 Import ListNotations.
 Require Import FV.Base.Util FV.Gen.C08 FV.C08.Model.
 
-Inductive lab := LStart | LRecv | LAcqD | LAcqU (m : nat) | LBuild (p : pid) | LSend (c : conn).
+Inductive lab := LStart | LRecv | LAcqD | LAcqU (m : nat) | LBuild (p : pid) | LSend (c : conn) | LAdd | LDisc.
 
 Record case := {
   k_node : node;
@@ -20,6 +21,7 @@ Record case := {
   k_cache : list (pid * nat);
   k_actv : list conn;
   k_subs : list (conn * scope);
+  k_keys : list scope;
 }.
 
 Definition req_eqb (a b : req) : bool :=
@@ -52,6 +54,8 @@ Definition lab_ok (s : state) (t : tid) (l : lab) : bool :=
   | TC c, LAcqU m => match c_pc (cth s c) with CAcqU _ ((m', _) :: _) => Nat.eqb m m' | _ => false end
   | TC c, LBuild p => match c_pc (cth s c) with CBuild _ m (i :: _) _ => pid_eqb p (m, i) | _ => false end
   | TC c, LSend c' => Nat.eqb c c' && match c_pc (cth s c) with CSendU _ _ _ _ _ _ | CSendR _ => true | _ => false end
+  | TC c, LAdd => match c_pc (cth s c) with CAdd _ _ => true | _ => false end
+  | TC c, LDisc => match c_pc (cth s c) with CDisc (_ :: _) _ => true | _ => false end
   | TU u, LStart => match u_pc (uth s u) with UStart => true | _ => false end
   | TU u, LAcqU m => match u_pc (uth s u), u_script (uth s u) with UAcq, (p, _) :: _ => Nat.eqb m (fst p) | _, _ => false end
   | TU u, LBuild p => match u_pc (uth s u) with UBuild q => pid_eqb p q | _ => false end
@@ -99,6 +103,7 @@ Definition check_case (k : case) : bool :=
     && forallb (fun pv => Nat.eqb (cache s (fst pv)) (snd pv)) (k_cache k)
     && same_set Nat.eqb (actv s) (k_actv k)
     && same_set sub_eqb (subs s) (k_subs k)
+    && same_set scope_eqb (map e_key (tbl s)) (k_keys k)
     && match dlock s with None => true | Some _ => false end
     && forallb (fun m => match ulock s m with None => true | Some _ => false end) (seq 0 (length (k_node k)))
   end.
@@ -106,6 +111,6 @@ Definition check_case (k : case) : bool :=
 (* diagnosis: first step not followed, the logs / tables of the model at that point *)
 Definition model_result (k : case) :=
   let '(s, bad) := final k in
-  (bad, map (logs s) (seq 0 (length (k_conns k))), actv s, subs s,
+  (bad, map (logs s) (seq 0 (length (k_conns k))), actv s, subs s, tbl s,
    map (fun c => c_pc (cth s c)) (seq 0 (length (k_conns k))),
    map (fun u => u_pc (uth s u)) (seq 0 (length (k_upds k)))).
